@@ -347,8 +347,8 @@ class Interp:
         if key in st.class_objs:
             return st.class_objs[key]
         v = self.eval(init, st, Ctx(None, ci.module, ctx.depth))
-        lazy = isinstance(v, tuple) and v and (v[0] in ("filterobj", "lazymap", "map", "zipobj", "enumobj", "revbytes") or (v[0] == "mapobj" and len(v) == 3)
-                                              or (v[0] == "obj" and v[1] in st.heap and st.heap[v[1]].name.startswith("gen:")))
+        lazy = isinstance(v, tuple) and v and (v[0] in ("filterobj", "lazymap", "map", "zipobj", "enumobj", "revbytes") or (v[0] == "mapobj" and len(v) == 3) or (v[0] == "condlist" and len(v) == 3 and v[2] == "once")
+                                              or (v[0] == "obj" and v[1] in st.heap and st.heap[v[1]].name.startswith(("gen:", "iter:"))))
         if lazy and ctx.fi is not None:
             T.HAZARDS[("ONESHOT", f"{ci.key}.{attr}")] = (f"class-level {ci.name}.{attr} = {ast.unparse(init)[:80]} is a one-shot iterator shared by every instance; {ctx.fi.qualname} consumes it: "
                                                          f"the first use drains it and every later use (of any instance) sees it empty")
@@ -875,7 +875,7 @@ class Interp:
         cur = self.eval(load, st, ctx)
         self.frozen_guard(cur, st, "the target of an augmented assignment", ctx.loc(node))
         rhs = self.eval(node.value, st, ctx)
-        if isinstance(node.op, ast.Add) and cur[0] == "obj" and st.heap[cur[1]].kind == "list" and not st.heap[cur[1]].symbolic and not st.heap[cur[1]].name.startswith("gen:"):
+        if isinstance(node.op, ast.Add) and cur[0] == "obj" and st.heap[cur[1]].kind == "list" and not st.heap[cur[1]].symbolic and not st.heap[cur[1]].name.startswith(("gen:", "iter:")):
             more = self.iter_items(rhs, st, ctx, node)
             if more is not None:
                 st.heap[cur[1]].items.extend(more)       # list += iterable extends the list in place (aliases see it)
@@ -1374,9 +1374,16 @@ class Interp:
             return list(itv[1])
         if itv[0] == "obj":
             ho = st.heap[itv[1]]
-            if ho.name.startswith("gen:"):
+            if ho.name.startswith("iter:") and ho.fields.get("$born") != c(getattr(self, "cur_serial", None)):
+                # the eagerly computed content of a pure one-shot iterator (filter / zip object): one later statement may
+                # consume it; a second one would find it empty
+                now_ = c(getattr(self, "cur_serial", None))
+                if ho.fields.get("$used", now_) != now_:
+                    raise AnalysisError(f"one-shot iterator {ho.name.split(':', 1)[1]} is consumed a second time at {ctx.loc(node)} (it is empty then): not modelled")
+                ho.fields["$used"] = now_
+            elif ho.name.startswith("gen:"):
                 if ho.fields.get("$born") != c(getattr(self, "cur_serial", None)):
-                    raise AnalysisError(f"generator object {ho.name[4:]} is consumed in a later statement than the one that created it at {ctx.loc(node)}: lazy evaluation order is not modelled")
+                    raise AnalysisError(f"one-shot iterator {ho.name.split(':', 1)[1]} is consumed in a later statement than the one that created it at {ctx.loc(node)}: lazy evaluation order (and a second consumption, which finds it empty) is not modelled")
             if ho.kind in ("list", "set") and not ho.symbolic:
                 return list(ho.items)
             if ho.kind == "dict" and not ho.symbolic:
